@@ -132,9 +132,69 @@ func (l *mbLib) analyzeClosure(fl *ast.FuncLit, via string) *mbClosure {
 		fmt.Sscan(tv.Value.ExactString(), &n)
 		return n, id, true
 	}
+	// locals that merely name an argument: `first := args[0]` (defined once)
+	aliasIdx := map[types.Object]int{}
+	aliasDef := map[*ast.IndexExpr]bool{}
+	{
+		ndef := map[types.Object]int{}
+		cand := map[types.Object]int{}
+		ast.Inspect(fl.Body, func(n ast.Node) bool {
+			as, ok := n.(*ast.AssignStmt)
+			if !ok {
+				return true
+			}
+			for k, lhs := range as.Lhs {
+				lid, ok := lhs.(*ast.Ident)
+				if !ok {
+					continue
+				}
+				o := info.Defs[lid]
+				if o == nil {
+					o = info.Uses[lid]
+				}
+				if o == nil {
+					continue
+				}
+				ndef[o]++
+				if len(as.Lhs) == len(as.Rhs) && as.Tok == token.DEFINE {
+					if i, _, ok := argIndex(as.Rhs[k]); ok && i >= 0 {
+						cand[o] = i
+						aliasDef[ast.Unparen(as.Rhs[k]).(*ast.IndexExpr)] = true
+					}
+				}
+			}
+			return true
+		})
+		for o, i := range cand {
+			if ndef[o] == 1 {
+				aliasIdx[o] = i
+			}
+		}
+	}
+	aliasOf := func(e ast.Expr) (int, bool) {
+		id, ok := ast.Unparen(e).(*ast.Ident)
+		if !ok {
+			return 0, false
+		}
+		i, ok := aliasIdx[info.Uses[id]]
+		return i, ok
+	}
+	assertedAlias := map[*ast.Ident]bool{}
 	ast.Inspect(fl.Body, func(n ast.Node) bool {
 		switch x := n.(type) {
 		case *ast.TypeAssertExpr:
+			if i, ok := aliasOf(x.X); ok && x.Type != nil {
+				assertedAlias[ast.Unparen(x.X).(*ast.Ident)] = true
+				if i > c.maxIdx {
+					c.maxIdx = i
+				}
+				if im := l.implOfType(info.TypeOf(x.Type)); im != nil {
+					c.asserts[i] = append(c.asserts[i], im)
+				} else {
+					c.otherUse = append(c.otherUse, "args["+fmt.Sprint(i)+"] asserted to "+exprStr(x.Type))
+				}
+				return false
+			}
 			if i, id, ok := argIndex(x.X); ok && i >= 0 && x.Type != nil {
 				consumed[id] = true
 				if i > c.maxIdx {
@@ -156,9 +216,22 @@ func (l *mbLib) analyzeClosure(fl *ast.FuncLit, via string) *mbClosure {
 					if i > c.maxIdx {
 						c.maxIdx = i
 					}
-					c.rawUse[i] = true
+					if !aliasDef[x] || aliasIdx[mbAliasTarget(info, fl, x)] != i {
+						c.rawUse[i] = true
+					}
 				}
 				return false
+			}
+		}
+		return true
+	})
+	// an alias used other than under a type assertion is a raw use of the argument
+	ast.Inspect(fl.Body, func(n ast.Node) bool {
+		if id, ok := n.(*ast.Ident); ok && !assertedAlias[id] {
+			if o := info.Uses[id]; o != nil {
+				if i, ok := aliasIdx[o]; ok {
+					c.rawUse[i] = true
+				}
 			}
 		}
 		return true
@@ -196,8 +269,84 @@ func (l *mbLib) analyzeClosure(fl *ast.FuncLit, via string) *mbClosure {
 			}
 		}
 	})
+	// kind dispatch read off the executed paths (if-chain, switch, early
+	// returns alike): for every subject compared with value-kind constants, the
+	// kinds under which no panic is reachable are handled; the dispatch
+	// "panics otherwise" when a panic is reachable for none of the tested kinds.
+	if ks, ok := l.kindDispatch(fl); ok {
+		c.kindSw = ks
+	}
 	mbClosureCache[fl] = c
 	return c
+}
+
+func (l *mbLib) kindDispatch(fl *ast.FuncLit) ([]*mbKindSwitch, bool) {
+	n := mbNewNormLit(l, nil, fl)
+	outs, reg, inc := mbSymExecDepth(l, n, fl.Body.List, false, 0) // the closure's own dispatch only
+	if inc != "" {
+		return nil, false
+	}
+	hasPanic := func(os []mbSymOut) bool {
+		for _, o := range os {
+			if o.kind == "panic" && mbSatB(o.cond) {
+				return true
+			}
+		}
+		return false
+	}
+	var res []*mbKindSwitch
+	for _, subj := range reg.subjects() {
+		labels := reg.labelsOf(subj)
+		isKind := len(labels) > 0
+		for _, lb := range labels {
+			k := reg.consts[lb]
+			if k == nil || !types.Identical(k.Type(), l.kinds.Type) {
+				isKind = false
+			}
+		}
+		if !isKind {
+			continue
+		}
+		ks := &mbKindSwitch{pos: fl.Pos(), tag: subj, handled: mbKindSet{}}
+		for _, lb := range labels {
+			if !hasPanic(mbSymRestrict(outs, reg.selecting(subj, lb))) {
+				ks.handled[reg.consts[lb].Name()] = true
+			}
+		}
+		ks.panics = hasPanic(mbSymRestrict(outs, reg.selecting(subj, "")))
+		// position: the statement that mentions the subject's first kind constant
+		ast.Inspect(fl.Body, func(nd ast.Node) bool {
+			switch x := nd.(type) {
+			case *ast.SwitchStmt:
+				if ks.pos == fl.Pos() && l.kindSwitch(x, fl.Body) != nil {
+					ks.pos = x.Pos()
+				}
+			}
+			return true
+		})
+		res = append(res, ks)
+	}
+	return res, true
+}
+
+// mbAliasTarget: the local that `x := args[i]` (ix is that args[i]) defines.
+func mbAliasTarget(info *types.Info, fl *ast.FuncLit, ix *ast.IndexExpr) types.Object {
+	var out types.Object
+	ast.Inspect(fl.Body, func(n ast.Node) bool {
+		as, ok := n.(*ast.AssignStmt)
+		if !ok || len(as.Lhs) != len(as.Rhs) {
+			return true
+		}
+		for k, r := range as.Rhs {
+			if ast.Unparen(r) == ast.Expr(ix) {
+				if lid, ok := as.Lhs[k].(*ast.Ident); ok {
+					out = info.Defs[lid]
+				}
+			}
+		}
+		return true
+	})
+	return out
 }
 
 // mbCollectDefs: single-assignment definitions of locals in a body.
@@ -362,17 +511,30 @@ func (a *mbAn) members(im *mbAnImpl) []mbMember {
 	}
 	// locals of the method that are defined exactly once (k := self.Inner.Kind())
 	a.curDefs = map[types.Object]ast.Expr{}
-	if im.fields != nil {
-		for o, ds := range mbCollectDefs(a.info, im.fields.Body) {
+	seenEnc := map[*ast.FuncDecl]bool{}
+	noteDefs := func(fd *ast.FuncDecl) {
+		if fd == nil || seenEnc[fd] {
+			return
+		}
+		seenEnc[fd] = true
+		for o, ds := range mbCollectDefs(a.info, fd.Body) {
 			if len(ds) == 1 {
 				a.curDefs[o] = ds[0]
 			}
 		}
 	}
+	noteDefs(im.fields)
+	for _, e := range im.table.entries {
+		noteDefs(e.enc) // a table built by a helper: the helper's locals
+	}
 	defer func() { a.curDefs = nil }()
 	var out []mbMember
 	for _, e := range im.table.entries {
-		m := mbMember{name: e.key, pos: e.pos, typ: a.evalType(e.val, recv)}
+		r := recv
+		if e.enc != nil && e.enc != im.fields {
+			r = e.recv
+		}
+		m := mbMember{name: e.key, pos: e.pos, typ: a.evalType(e.val, r)}
 		if len(e.guard) > 0 {
 			m.cond = true
 			m.subject, m.kinds, m.condWhy = a.guardKinds(e.guard)
